@@ -193,7 +193,7 @@ def run_harness(binary, cases, tag):
                 f.write("\n".join(c) + "\n")
         nlines = sum(len(c) for c in cases[start:])
         try:
-            r = subprocess.run([binary, path], capture_output=True, text=True, timeout=max(20, nlines / 500))
+            r = subprocess.run([binary, path], capture_output=True, text=True, timeout=max(15, nlines / 5000))
             out, died = r.stdout, (r.returncode != 0)
             kind = "abort"
         except subprocess.TimeoutExpired as e:
